@@ -655,4 +655,106 @@ example : (run (Pool.init "random" [sA, sB]) [.load 0, .pick 0 {}, .pick 0 {}, .
     (run (Pool.init "random" [sA, sB]) [.load 0, .pick 0 {}, .pick 0 {}, .pick 0 {}]).map (·.counter) = [0, 1, 2] := by
   decide
 
+/-! ### round 7 (resil): the `lb` judge's `useService:*` predicates accept the model -/
+
+/-- **the spec's lists are the model's lists**, for every pool spec and every history of discovery reports: the
+declarative `currentList` per report (what `specListsOK`, `selOK specLists`, `winSpec` are evaluated against)
+is what the model's `useService` publishes (`agreeLists`, `winModel`) and what the history semantics
+`afterReports` leaves after each prefix (`selModel`). Hence a run that agrees with the model satisfies the three
+`useService:*` / `swap:*` list clauses, and vice versa. -/
+theorem swap_spec_lists_are_model_lists (sps : PoolSpec) (gens : List (List Instance)) :
+    sps.servers :: gens.map (useService sps) = sps.servers :: gens.map (currentList sps) ∧
+    histLists sps gens = sps.servers :: gens.map (currentList sps) := by
+  have h1 : gens.map (useService sps) = gens.map (currentList sps) :=
+    List.map_congr_left (fun g _ => use_service_spec sps g)
+  refine ⟨by rw [h1], ?_⟩
+  unfold histLists
+  rw [List.range_succ_eq_map, List.map_cons, List.map_map]
+  congr 1
+  apply List.ext_getElem
+  · simp
+  · intro i h1 h2
+    simp only [List.length_map, List.length_range] at h1 h2
+    simp only [List.getElem_map, List.getElem_range, Function.comp, Nat.succ_eq_add_one]
+    have ht : gens.take (i + 1) = gens.take i ++ [gens[i]] := by
+      rw [List.take_succ]; simp [List.getElem?_eq_getElem h2]
+    rw [ht]
+    exact (use_service_history_last_report sps _ _ "" {}).1
+
+/-- **`selOK` and `wSelOK` accept the model**: whatever list every report left (`ls`), whatever the policy, and
+whatever selection inputs (`xs[i]` = the selections made after report `i`), the strings the model's `choose`
+produces on those lists satisfy the judge's two selection predicates — provided no selection panicked
+(`no_panic` under `Contract`) and, for `wSelOK`, `shown` tells servers of one list apart only up to weight
+positivity (true for the harness' `url|weight`). -/
+theorem selOK_accepts_model (shown : Server → String) (policy : String) (ls : List (List Server))
+    (xs : List (List Sel))
+    (hnp : ∀ i x, x ∈ xs.getD i [] → choose (newLB policy (ls.getD i [])) x ≠ .panic) :
+    selOK shown ls (xs.mapIdx (fun i l => l.map (fun x => showRes shown (choose (newLB policy (ls.getD i [])) x))))
+      = true := by
+  unfold selOK
+  simp only [List.all_eq_true, List.mem_range, List.length_mapIdx]
+  intro i hi e he
+  have hget : (xs.mapIdx (fun i l => l.map (fun x => showRes shown (choose (newLB policy (ls.getD i [])) x)))).getD i [] =
+      (xs.getD i []).map (fun x => showRes shown (choose (newLB policy (ls.getD i [])) x)) := by
+    simp [List.getD_eq_getElem?_getD, List.getElem?_mapIdx, List.getElem?_eq_getElem hi]
+  rw [hget, List.mem_map] at he
+  obtain ⟨x, hx, rfl⟩ := he
+  cases hc : choose (newLB policy (ls.getD i [])) x with
+  | panic => exact absurd hc (hnp i x hx)
+  | nil =>
+    have := (nil_iff_empty _ x).mp hc
+    simp only [newLB] at this
+    rw [this]
+    simp [showRes]
+  | srv s =>
+    have hm := choose_mem _ x hc
+    simp only [newLB] at hm
+    have hne : (ls.getD i []).isEmpty = false := by
+      cases hl : ls.getD i [] with
+      | nil => rw [hl] at hm; simp at hm
+      | cons a t => rfl
+    simp only [hne, Bool.false_eq_true, if_false, showRes, List.contains_eq_mem, List.mem_map, decide_eq_true_eq]
+    exact ⟨s, hm, rfl⟩
+
+theorem wSelOK_accepts_model (shown : Server → String) (ls : List (List Server)) (xs : List (List Sel))
+    (hnp : ∀ i x, x ∈ xs.getD i [] → choose ⟨.weightedRandom, ls.getD i []⟩ x ≠ .panic) :
+    wSelOK shown true ls
+      (xs.mapIdx (fun i l => l.map (fun x => showRes shown (choose ⟨.weightedRandom, ls.getD i []⟩ x)))) = true := by
+  unfold wSelOK
+  simp only [Bool.not_true, Bool.false_or, List.all_eq_true, List.mem_range, List.length_mapIdx]
+  intro i hi
+  by_cases hany : (ls.getD i []).any (fun s => decide (s.weight > 0)) = true
+  · simp only [hany, Bool.not_true, Bool.false_or, List.all_eq_true]
+    intro e he
+    have hget : (xs.mapIdx (fun i l => l.map (fun x => showRes shown (choose ⟨.weightedRandom, ls.getD i []⟩ x)))).getD i [] =
+        (xs.getD i []).map (fun x => showRes shown (choose ⟨.weightedRandom, ls.getD i []⟩ x)) := by
+      simp [List.getD_eq_getElem?_getD, List.getElem?_mapIdx, List.getElem?_eq_getElem hi]
+    rw [hget, List.mem_map] at he
+    obtain ⟨x, hx, rfl⟩ := he
+    have hex : ∃ s ∈ ls.getD i [], 0 < s.weight := by
+      simpa [List.any_eq_true] using hany
+    cases hc : choose ⟨.weightedRandom, ls.getD i []⟩ x with
+    | panic => exact absurd hc (hnp i x hx)
+    | nil =>
+      have := (nil_iff_empty _ x).mp hc
+      simp only at this
+      obtain ⟨s, hs, _⟩ := hex
+      rw [this] at hs; simp at hs
+    | srv s =>
+      have hm := choose_mem _ x hc
+      have hw := weighted_never_zero _ x hex hc
+      simp only [List.any_eq_true, List.mem_filter, decide_eq_true_eq, showRes, beq_iff_eq]
+      exact ⟨s, ⟨hm, hw⟩, rfl⟩
+  · rw [Bool.not_eq_true] at hany
+    simp only [hany, Bool.not_false, Bool.true_or]
+
+/-- the selection predicates are not vacuous: after a report that drained `a` to weight 0, a selection of `a`
+(known only from the earlier report) is refused by both -/
+example :
+    let ls : List (List Server) := [[⟨"a", 5, []⟩], [⟨"a", 0, []⟩, ⟨"b", 5, []⟩]]
+    let shown : Server → String := fun s => s.url ++ "|" ++ toString s.weight
+    selOK shown ls [["a|5"], ["a|5"]] = false ∧ wSelOK shown true ls [["a|5"], ["a|0"]] = false ∧
+    selOK shown ls [["a|5"], ["b|5", "a|0"]] = true ∧ wSelOK shown true ls [["a|5"], ["b|5"]] = true := by
+  refine ⟨by decide, by decide, by decide, by decide⟩
+
 end EgVerif.C04
